@@ -18,3 +18,11 @@ package downloader
 //@   requires c != nil
 //@   ensures [verification-required-means-verified] old(c.Verify) == VerifyAlways && result2 == nil ==> chartVerifiedBy(result0, old(c.Keyring))
 //@   ensures [verify-if-possible-rejects-a-bad-signature] old(c.Verify) == VerifyIfPossible && result2 == nil ==> chartVerifiedBy(result0, old(c.Keyring)) || result1 != nil
+
+// ---- C16: the lock file of a dependency update is written only at <chart path>/Chart.lock (or
+// requirements.lock), and never through a symbolic link planted at that path
+
+//@ func writeLock
+//@   props C16
+//@   ensures [writes-only-the-lock-file-of-this-chart] forall p string :: GwrittenPaths[p] && !old(GwrittenPaths)[p] ==> p == fjoin(chartpath, "Chart.lock") || p == fjoin(chartpath, "requirements.lock")
+//@   ensures [never-through-a-symlink] forall p string :: GwrittenPaths[p] && !old(GwrittenPaths)[p] ==> !isSymlinkAt(p)
